@@ -530,7 +530,9 @@ func init() {
 				{"(*internal/pkg/table.TableManager).Update", lkBucket, locks.W, "RIB update and fan-out form one critical section per prefix bucket"},
 				{"(*pkg/server.BgpServer).propagateUpdateToNeighbors", lkBucket, locks.W, "fan-out must see the RIB state produced by the update it follows"},
 				{"(*pkg/server.BgpServer).getBestFromLocalCallbackLocked", lkRR, locks.R, "caller holds the peer's route-refresh lock"},
-			}, 3)
+				{"pkg/server.needToAdvertise", lkRR, locks.R, "the advertising test must be atomic with the bookkeeping it guards (PeerDown clears it under the exclusive lock)"},
+			}, 4)
+			c.ruleLocalIDStable("E6.local-id-stable")
 			c.ruleBookkeepingLocks("E1b.bookkeeping")
 			c.rulePairing("E6.send-recorded")
 			c.ruleResetComplete("E6.reset-complete")
